@@ -758,4 +758,99 @@ theorem wf_splitFace (t : Topo) (h : WF t) (f c : Nat) : WF (splitFace t f c) :=
   · show (t.fn ++ [t.fn.getD f []]).length = t.nf + 1
     rw [List.length_append, h.2.2.2]; rfl
 
+
+/-! ### the 1-d constructor -/
+
+theorem mem_lineCf (n : Nat) (e : Inc) :
+    e ∈ lineCf n ↔ e.cell < n ∧ ((e.face = e.cell ∧ e.sign = -1) ∨ (e.face = e.cell + 1 ∧ e.sign = 1)) := by
+  induction n with
+  | zero => simp [lineCf]
+  | succ n ih =>
+    unfold lineCf
+    rw [List.mem_append, ih]
+    constructor
+    · rintro (⟨h1, h2⟩ | h)
+      · exact ⟨by omega, h2⟩
+      · simp only [List.mem_cons, List.not_mem_nil, or_false] at h
+        rcases h with rfl | rfl
+        · exact ⟨by simp, Or.inl ⟨rfl, rfl⟩⟩
+        · exact ⟨by simp, Or.inr ⟨rfl, rfl⟩⟩
+    · rintro ⟨h1, h2⟩
+      by_cases hc : e.cell < n
+      · exact Or.inl ⟨hc, h2⟩
+      · right
+        have hc' : e.cell = n := by omega
+        simp only [List.mem_cons, List.not_mem_nil, or_false]
+        rcases h2 with ⟨hf, hs⟩ | ⟨hf, hs⟩
+        · left; cases e; simp_all
+        · right; cases e; simp_all
+
+theorem nodup_lineCf (n : Nat) : (lineCf n).Nodup := by
+  induction n with
+  | zero => simp [lineCf]
+  | succ n ih =>
+    unfold lineCf
+    rw [List.nodup_append]
+    refine ⟨ih, by simp, ?_⟩
+    intro a ha b hb hab
+    have h1 := ((mem_lineCf n a).mp ha).1
+    simp only [List.mem_cons, List.not_mem_nil, or_false] at hb
+    rcases hb with rfl | rfl <;> (rw [hab] at h1; simp at h1)
+
+theorem wf_line1d (n : Nat) : WF (line1d n) := by
+  refine ⟨?_, ?_, nodup_lineCf n, by simp [line1d]⟩
+  · intro e he
+    have := (mem_lineCf n e).mp he
+    show _ ∧ e.face < n + 1 ∧ e.cell < n
+    omega
+  · intro a ha b hb hf hsc
+    have h1 := (mem_lineCf n a).mp ha
+    have h2 := (mem_lineCf n b).mp hb
+    have : a.face = b.face ∧ a.cell = b.cell ∧ a.sign = b.sign := by omega
+    cases a; cases b; simp_all
+
+theorem noOrphan_line1d (n : Nat) (hn : 1 ≤ n) : NoOrphan (line1d n) := by
+  intro f hf
+  have hf' : f < n + 1 := List.mem_range.mp hf
+  unfold count
+  apply List.length_pos_of_mem (a := if f < n then (⟨f, f, -1⟩ : Inc) else ⟨f, f - 1, 1⟩)
+  rw [mem_entriesOf]
+  by_cases h : f < n
+  · rw [if_pos h]
+    exact ⟨(mem_lineCf n _).mpr ⟨h, Or.inl ⟨rfl, rfl⟩⟩, rfl⟩
+  · rw [if_neg h]
+    refine ⟨(mem_lineCf n _).mpr ⟨by simp; omega, Or.inr ⟨by simp; omega, rfl⟩⟩, rfl⟩
+
+/-! ### trace operator -/
+
+theorem mem_trace_block (f c d : Nat) (x : Nat × Nat × Int) :
+    x ∈ (List.range d).map (fun k => (f * d + k, c * d + k, (1 : Int))) ↔
+      ∃ k, k < d ∧ x = (f * d + k, c * d + k, 1) := by
+  simp only [List.mem_map, List.mem_range]
+  constructor
+  · rintro ⟨k, hk, rfl⟩; exact ⟨k, hk, rfl⟩
+  · rintro ⟨k, hk, rfl⟩; exact ⟨k, hk, rfl⟩
+
+
+theorem mem_indicesOf (l : List Bool) (i : Nat) : i ∈ indicesOf l ↔ l[i]? = some true := by
+  unfold indicesOf
+  simp only [List.mem_filter, List.mem_range]
+  constructor
+  · rintro ⟨hf, hv⟩
+    rw [List.getElem?_eq_getElem hf]
+    simp [List.getD, List.getElem?_eq_getElem hf] at hv
+    rw [hv]
+  · intro hv
+    have hf : i < l.length := by
+      rcases Nat.lt_or_ge i l.length with h | h
+      · exact h
+      · rw [List.getElem?_eq_none h] at hv; cases hv
+    exact ⟨hf, by simp [List.getD, hv]⟩
+
+theorem idxOf_getElem_of_nodup {l : List Nat} (hn : l.Nodup) (i : Nat) (hi : i < l.length) :
+    l.idxOf l[i] = i := by
+  have hlt := List.idxOf_lt_length_iff.mpr (List.getElem_mem hi)
+  have e := List.getElem_idxOf hlt
+  exact (List.getElem?_inj hlt hn).mp (by rw [List.getElem?_eq_getElem hlt, e, List.getElem?_eq_getElem hi])
+
 end PorepyVerif.C21
